@@ -307,6 +307,20 @@ fn drive(cfg: &Config, slot: usize, progs: &[(String, Vec<Req>, Vec<u8>)], memcr
         c.send(&Req::flush(op::FLUSH, None).bytes());
         c.read_frames(1, patience);
     }
+    // ---- connections that ended in every orderly way come first: the limit probed afterwards is
+    // still the configured one (slots are neither lost nor multiplied by earlier connections) ----
+    for ending in [op::QUIT, op::QUITQ, op::NOOP] {
+        if let Ok(mut c) = Client::connect(srv.addr) {
+            c.send(&Req::bare(op::NOOP).opaque(0x6001).bytes());
+            c.read_frames(1, patience);
+            if ending != op::NOOP {
+                c.send(&Req::bare(ending).opaque(0x6002).bytes());
+                c.read_frames(1, Duration::from_millis(300));
+            }
+            drop(c);
+        }
+        std::thread::sleep(Duration::from_millis(50));
+    }
     // ---- connection limit: 8 x limit connections, at most `limit` served ----
     {
         let want = cfg.conn_limit as usize;
